@@ -522,18 +522,45 @@ def timeCoordinateGeneric (vars : List TVar) : Option String :=
     | some u => hasSince u && v.isDatetime
     | none => false).map (·.name)
 
-/-- SHOC overrides: the variable with the fixed name (`t` for SHOC standard, `time` for SHOC
-simple), whatever it is -/
+/-- SHOC overrides (what the property needs): the *variable* with the fixed name (`t` for SHOC
+standard, `time` for SHOC simple), whatever it holds -/
 def timeCoordinateNamed (name : String) (vars : List TVar) : Option String :=
   (vars.find? fun v => v.name == name).map (·.name)
 
 inductive ConvKind | generic | shocStandard | shocSimple
 deriving DecidableEq, Repr
 
+def shocTimeName : ConvKind → String
+  | .shocStandard => "t"
+  | _ => "time"
+
 def timeCoordinate : ConvKind → List TVar → Option String
   | .generic, vs => timeCoordinateGeneric vs
-  | .shocStandard, vs => timeCoordinateNamed "t" vs
-  | .shocSimple, vs => timeCoordinateNamed "time" vs
+  | k, vs => timeCoordinateNamed (shocTimeName k) vs
+
+/-- **Quirk model** of the SHOC overrides as they stand: `self.dataset[name]` also succeeds when
+`name` is only a *dimension* (xarray then makes up an index coordinate), so a name that is not a
+variable can come back. -/
+def timeCoordinateCurrent (k : ConvKind) (dims : List String) (vs : List TVar) : Option String :=
+  match k with
+  | .generic => timeCoordinateGeneric vs
+  | k =>
+    match timeCoordinateNamed (shocTimeName k) vs with
+    | some n => some n
+    | none => if dims.contains (shocTimeName k) then some (shocTimeName k) else none
+
+/-- `Convention.to_netcdf` up to the attribute rewrite: which variable of the saved file gets its
+units rewritten.  `none` = nothing is rewritten, `some (some n)` = variable `n`,
+`some none` = the save raises: the discovered name is not a variable (`data_array_to_name`), or the
+variable is not a datetime one, so that the file has no `units` / `calendar` attribute to read
+(`fix_time_units_for_ems`). -/
+def saveTimeVariable (found : Option String) (vs : List TVar) : Option (Option String) :=
+  match found with
+  | none => none
+  | some n =>
+    match vs.find? (fun v => v.name == n) with
+    | some v => if v.isDatetime then some (some n) else some none
+    | none => some none
 
 /-- `fix_time_units_for_ems` on the attributes of the time variable in the file:
 only `units` is replaced; `none` where the function raises (missing `units` / `calendar`, or
